@@ -1,0 +1,10 @@
+//go:build verif
+
+package protocol
+
+// Accessor for the /verif harness (build tag `verif` only): RecordSet.WriteTo on its `w.(*pageBuffer)` fast path
+// (the one WriteRequest/WriteResponse take), with whatever the buffer already holds in front — so that the header
+// placeholders and the WriteAt back-patches of writeToVersion1/2 can be observed when they straddle page boundaries.
+
+// WriteRecordSet appends rs to the wrapped page buffer exactly as the request encoder does.
+func (v *VerifPageBuffer) WriteRecordSet(rs *RecordSet) (int64, error) { return rs.WriteTo(v.pb) }
